@@ -97,11 +97,12 @@ def build_cvrs(specs):
     return out
 
 
-def call_make_phantoms(audit, contests, cvr_list, call):
+def call_make_phantoms(audit, contests, cvr_list, call, asked=None):
     """One call of the real make_phantoms on live objects; returns the case (inputs read just before, outputs after)."""
     CVR = lib().CVR
     before = [snap(c) for c in cvr_list]
-    cons_before = [(con.id, con.cards) for con in contests.values()]
+    # first call on freshly built contests: the bounds the caller asked for; later calls: the objects' current state
+    cons_before = list(asked) if asked is not None else [(con.id, con.cards) for con in contests.values()]
     strata = [(st.use_style, st.max_cards) for st in audit.strata.values()]
     kw = {}
     prefix, tp, pool = call.get("prefix", "phantom-"), call.get("tally_pool"), call.get("pool", False)
@@ -154,13 +155,14 @@ VOTES = [{}, {"Alice": 1}, {"Bob": True}, {"Alice": 1, "Bob": 2}, {"yes": "marke
 
 def gen_cvr_specs(rng, names, n, idstyle):
     specs = []
+    unlisted = {k for k in names if rng.random() < 0.12}        # contests that no CVR lists (bound 0 is legal for them)
     for i in range(n):
         votes = {}
         pool_of = names + (["other"] if rng.random() < 0.3 else [])
         order = pool_of[:]
         rng.shuffle(order)
         for k in order:
-            if rng.random() < 0.6:
+            if rng.random() < 0.6 and k not in unlisted:
                 votes[k] = copy.deepcopy(rng.choice(VOTES))
         if idstyle == "dominion":
             cid = f"{rng.randint(1, 3)}-{rng.randint(1, 2)}-{i + 1}"
@@ -178,16 +180,27 @@ def gen_cvr_specs(rng, names, n, idstyle):
     return specs
 
 
-def make_objects(strata, con_specs, cvr_specs):
+def make_objects(strata, con_specs, cvr_specs, route="from_dict"):
+    """Build the audit, the contests and the CVRs.  The contests are built the way `route` says (Contest.from_dict,
+    Contest.from_dict_of_dicts, or the constructor); also returns what the caller ASKED for, [(id, card bound)], which is
+    what the first call of make_phantoms is checked against (construction is part of the path to make_phantoms;
+    an omitted bound is the constructor's documented default 0)."""
     A = lib()
     audit = A.Audit.from_dict({"strata": {f"s{i}": {"use_style": us, "max_cards": mc} for i, (us, mc) in enumerate(strata)}})
-    contests = {}
+    dicts = {}
     for key, cid, cards in con_specs:
         d = {"id": cid, "name": str(cid), "candidates": ["Alice", "Bob"], "winner": ["Alice"]}
         if cards != "default":
             d["cards"] = cards
-        contests[key] = A.Contest.from_dict(d)
-    return audit, contests, build_cvrs(cvr_specs)
+        dicts[key] = d
+    if route == "dod" and all(key == cid for key, cid, _ in con_specs) and len(dicts) == len(con_specs):
+        contests = A.Contest.from_dict_of_dicts(copy.deepcopy(dicts))       # sets id = key
+    elif route == "ctor":
+        contests = {key: A.Contest(**d) for key, d in dicts.items()}
+    else:
+        contests = {key: A.Contest.from_dict(dict(d)) for key, d in dicts.items()}
+    asked = [(dicts[key]["id"], dicts[key].get("cards", 0)) for key in contests]
+    return audit, contests, build_cvrs(cvr_specs), asked
 
 
 def count_listing(specs, cid):
@@ -206,8 +219,15 @@ def gen_mp_scenarios(ctx):
         for sf in itertools.product(range(-1, 4), repeat=k):
             cons = [(names[i], names[i], count_listing(base, names[i]) + sf[i]) for i in range(k)]
             yield [(True, 6)], cons, base, [{"prefix": "phantom-"}]
+    for b0 in (0, None, 1, 3, "default"):            # a contest no CVR lists: legal bound 0, unspecified, larger, omitted
+        for other in (count_listing(base, "A"), count_listing(base, "A") + 2):
+            for order in (0, 1):
+                cons = [("D", "D", b0), ("A", "A", other)]
+                yield [(True, 6)], cons[::-1] if order else cons, base, [{"prefix": "phantom-"}]
+        yield [(True, 6)], [("D", "D", b0)], base, [{"prefix": "phantom-"}]
+        yield [(True, None)], [("D", "D", b0)], [], [{"prefix": "phantom-"}]
     for d in range(-1, 4):
-        for cards in (None, 2, 9):
+        for cards in (None, 0, 2, 9):
             yield [(False, len(base) + d)], [("A", "A", cards), ("B", "B", cards)], base, [{"prefix": "phantom-"}]
     # (b) random structured scenarios, each run under several orders of the contests dict
     for _ in range(ctx.n(110, 2500)):
@@ -353,13 +373,15 @@ def mp_oracle(c):
 def run_make_phantoms(ctx, res, keep_for_glue):
     cases = []
     for strata, cons, cvrs, calls in gen_mp_scenarios(ctx):
-        audit, contests, cvr_list = make_objects(strata, cons, cvrs)
-        for call in calls:
+        route = ctx.rng.choice(["from_dict", "from_dict", "dod", "ctor"])
+        audit, contests, cvr_list, asked = make_objects(strata, cons, cvrs, route)
+        for ncall, call in enumerate(calls):
             if call.get("flip_style"):
                 for st in audit.strata.values():
                     st.use_style = not st.use_style
                 call = {k: v for k, v in call.items() if k != "flip_style"}
-            c = call_make_phantoms(audit, contests, cvr_list, call)
+            c = call_make_phantoms(audit, contests, cvr_list, call, asked if ncall == 0 else None)
+            c["route"] = route
             cases.append(c)
             if not c["exc"] and call.get("fmt") and c["n"] > 0:
                 keep_for_glue.append(c)
@@ -397,6 +419,11 @@ def run_make_phantoms(ctx, res, keep_for_glue):
                         rounds, run_max = rounds + 1, s_
                 if rounds > 1:
                     stats["mp_multi_round"] += 1
+    stats["mp_construction_routes"] = {r: sum(1 for c in cases if c.get("route") == r) for r in ("from_dict", "dod", "ctor")}
+    stats["mp_explicit_bound_0"] = sum(1 for c in cases if any(b == 0 and b is not None for _, b in c["contests"]))
+    stats["mp_bound_0_unlisted_contest_style"] = sum(
+        1 for c in cases if not c["exc"] and c["strata"][0][0] and mp_preconditions(c)
+        and any(b == 0 and not any(i in s_["contests"] for s_ in c["before"]) for i, b in c["contests"]))
     res.stats.update(stats)
     res.samples += [mp_json(c) for c in cases[200:202]]
     return cases
@@ -708,7 +735,8 @@ def run(ctx, res):
     pairs = run_format_glue(ctx, res, kept)
     run_overstatement(ctx, res, pairs)
     res.rule = ("make_phantoms: every shortfall vector in {-1..3}^k (k<=3) on a fixed list plus random CVR lists (0-8 cards, 1-4 "
-                "contests, style on/off, bounds None/equal/larger/too small/default 0, key != id, prefixes, pool labels, "
+                "contests built through Contest.from_dict / from_dict_of_dicts / the constructor and checked against the bounds asked for, "
+                "style on/off, bounds None/0 for an unlisted contest/equal/larger/too small/omitted, key != id, prefixes, pool labels, "
                 "every scenario under increasing/decreasing/random orders of the contests dict, 20% called twice on the same "
                 "objects); non-trivial = at least one phantom created, distinct by (strata, bounds, card ids and styles, prefix). "
                 "overstatement: exhaustive product of MVR kinds (7 ballots x phantom flag x 4 constructions) x CVR kinds x "
